@@ -627,8 +627,10 @@ func faultyForward(r *rand.Rand, idx int) {
 // request of the same or of another client: whatever the refused request started must be over before the next
 // operation talks to the underlying agent - the raw request gets the reply to itself.
 func refusedThenForward(r *rand.Rand) {
-	stop := watchdog("history of refused requests followed by raw requests", 40*time.Second)
+	stop := watchdog("history of refused requests followed by raw requests", 60*time.Second)
 	defer stop()
+	atomic.StoreInt32(&listDelayMs, 4)
+	defer atomic.StoreInt32(&listDelayMs, 0)
 	for _, viaConn := range []bool{false, true} {
 		s, err := newSUT(viaConn, false, nil)
 		if err != nil {
@@ -654,7 +656,7 @@ func refusedThenForward(r *rand.Rand) {
 			wg.Add(1)
 			go func(t int) {
 				defer wg.Done()
-				for k := 0; k < 25; k++ {
+				for k := 0; k < 30; k++ {
 					var rerr error
 					switch (t + k) % 3 {
 					case 0:
